@@ -614,8 +614,8 @@ inline DescT<lib::CaptureModulePayload> descCmPayload()
         // bits 0..19: four string lengths 0..31, bits 20..27 vendor length 0..255 (a third of them empty), rest: content
         std::string str[4];
         for (int i = 0; i < 4; ++i)
-            str[i] = fillString(static_cast<uint32_t>(v >> 32) + static_cast<uint32_t>(i), (v >> (5 * i)) & 31);
-        size_t vn = ((v >> 28) % 3 == 0) ? 0 : ((v >> 20) & 0xFF);
+            str[i] = fillString(static_cast<uint32_t>(v >> 32) + static_cast<uint32_t>(i), ((v >> (5 * i)) & 31) * (((v >> (40 + i)) & 7) == 0 ? 9 : 1));  // up to 279 now and then
+        size_t vn = ((v >> 28) % 3 == 0) ? 0 : ((v >> 30) % 4 == 0) ? ((v >> 20) & 0xFF) * 4 : ((v >> 20) & 0xFF);
         Bytes vendor = fillBytes(static_cast<uint32_t>(v >> 36), vn);
         o.setData(str[0], str[1], str[2], str[3], vendor);
         VF_CHECK(std::string(o.getDeviceDescription()) == str[0] && std::string(o.getSerialNumber()) == str[1] && std::string(o.getHardwareVersion()) == str[2] &&
@@ -665,8 +665,9 @@ inline DescT<lib::InterfacePayload> descIfPayload()
         return Obj(b.data(), b.size());
     };
     d.varSetter = [](Obj& o, uint64_t v) -> Verdict {
-        size_t in = ((v >> 16) % 4 == 0) ? 0 : (v & 0x3F);
-        size_t vn = ((v >> 18) % 3 == 0) ? 0 : ((v >> 8) & 0xFF);
+        // mostly short lists; one in eight goes up to 511 ids / 1023 vendor bytes (both bytes of the 16-bit lengths matter)
+        size_t in = ((v >> 16) % 4 == 0) ? 0 : ((v >> 20) % 8 == 0) ? (v & 0x1FF) : (v & 0x3F);
+        size_t vn = ((v >> 18) % 3 == 0) ? 0 : ((v >> 23) % 8 == 0) ? ((v >> 8) & 0x3FF) : ((v >> 8) & 0xFF);
         Bytes ids = fillBytes(static_cast<uint32_t>(v >> 32), in);
         Bytes vendor = fillBytes(static_cast<uint32_t>(v >> 36), vn);
         static const uint8_t dummy = 0;
